@@ -251,6 +251,12 @@ func exec(p prog, c *hx.Case) error {
 			}
 			id := uint64(int64(base) + int64(o.IDOff))
 			uri := loc.Root + "/work/" + who + "/checkpoints"
+			if pend != nil && id == pend.id {
+				if a, expected := pend.ops[who]; expected && !a {
+					// the operator's DKV checkpoints file lists the checkpoint it acknowledges
+					loc.Put("work/"+who+"/checkpoints", []byte(fmt.Sprintf(`{"checkpoints":[{"id":%d,"wals":[],"levels":[]}]}`, id)))
+				}
+			}
 			err := store.AddOperatorSnapshot(&snapshotpb.OperatorCheckpoint{CheckpointId: id, OperatorId: who, DkvFileUri: uri,
 				KeyGroupRange: &snapshotpb.KeyGroupRange{Start: 0, End: 1}})
 			if pend == nil || id != pend.id {
